@@ -30,7 +30,7 @@ from vf import lib_C01_states as L
 
 ID = "C04"
 LEVEL = "exploration"
-BUDGET_S = {"quick": 32.0, "thorough": 140.0}
+BUDGET_S = {"quick": 27.0, "thorough": 140.0}
 RULE = ("a case block = one generated dataset (1-3 dims, axis lengths 1-5, coordinate kind none/identity/affine "
         "diagonal/coupled/full) x every attribute kind x every selection kind x one fresh view of each of the 10 view "
         "kinds (None, Ellipsis, bare slice, full / short tuples of positive-step slices, int+slice mixes, all-int, "
@@ -56,9 +56,9 @@ ANCHORS = ["glue.core.subset:RoiSubsetStateNd.to_mask", "glue.core.subset:SliceS
            "glue.utils.array:view_shape", "glue.utils.array:combine_slices"]
 
 VIEW_KINDS = list(common.VIEW_KINDS)        # generator kinds
-ATTR_KINDS = ["stored", "int", "categorical", "derived", "linked", "pixel", "world"]
+ATTR_KINDS = ["stored", "int", "categorical", "derived", "linked", "pixel", "world", "dask"]
 COMPOSITE_KINDS = ["and", "or", "xor", "not", "multior"]
-N_BLOCKS = {"quick": {"data": 420, "indexed": 260, "slices": 40}, "thorough": {"data": 4000, "indexed": 2500, "slices": 400}}
+N_BLOCKS = {"quick": {"data": 300, "indexed": 200, "slices": 30}, "thorough": {"data": 4000, "indexed": 2500, "slices": 400}}
 
 
 # ---------------------------------------------------------------- views
@@ -76,7 +76,16 @@ def classify_view(view, shape):
         return "bare_int"
     items = list(view)
     if all(isinstance(v, np.ndarray) for v in items):
+        if any(v.ndim > 1 for v in items):
+            return "index_arrays_nd"
+        if any(v.size and v.min() < 0 for v in items):
+            return "neg_index_arrays"
         return "index_arrays"
+    if all(isinstance(v, (slice, int, np.integer)) for v in items):
+        if any(isinstance(v, slice) and v.step is not None and v.step < 0 for v in items):
+            return "backward_slices"
+        if any(not isinstance(v, slice) and v < 0 for v in items):
+            return "neg_int_mix"
     if all(isinstance(v, (int, np.integer)) for v in items):
         return "all_int" if len(items) == len(shape) else "ints_short"
     if all(isinstance(v, slice) for v in items):
@@ -84,12 +93,15 @@ def classify_view(view, shape):
     if all(isinstance(v, (slice, int, np.integer)) for v in items):
         return "int_slice_mix"
     if all(isinstance(v, (np.ndarray, int, np.integer)) for v in items):
+        if any((v.size and v.min() < 0) if isinstance(v, np.ndarray) else v < 0 for v in items):
+            return "neg_int_index_array_mix"
         return "int_index_array_mix"     # not generated for a plain Data; what IndexedData makes of an index-array view
     return "other"
 
 
 VIEW_CLASSES = ["none", "ellipsis", "bare_slice", "slices_full", "slices_short", "int_slice_mix", "all_int",
                 "index_arrays", "bool_mask"]
+EXT_VIEW_CLASSES = ["neg_int_mix", "backward_slices", "neg_index_arrays", "index_arrays_nd"]
 
 
 def edge_view(rng, shape, slices):
@@ -127,9 +139,9 @@ def outcome(getter, full, view, tol=False):
     info = {"empty": int(np.size(exp)) == 0, "exp": exp, "result_ndim": min(np.ndim(exp), 2)}
     try:
         got = getter()
+        g = np.asarray(got)          # a lazy (dask) answer is computed here
     except Exception as e:
         return {"kind": "exception", "exc": type(e).__name__, "where": glue_frame(e), "error": repr(e)[:200]}, info
-    g = np.asarray(got)
     if g.shape != np.shape(exp):
         return {"kind": "shape_mismatch", "got_shape": list(g.shape), "expected_shape": list(np.shape(exp))}, info
     if np.asarray(exp).dtype == bool:
@@ -173,7 +185,7 @@ def leaf_variant(desc):
         return "pretransform" if desc.get("pre", "none") != "none" else "no_pretransform"
     if desc["k"] in ("slice", "pixslice") and any(sl[2] is not None and sl[2] < 0 for sl in desc["slices"]):
         return "backward_slice"
-    return None
+    return desc.get("variant")
 
 
 def has_lossy_copy(W, desc):
@@ -188,8 +200,11 @@ class DataBlock(object):
     selection over a failing attribute, a composite over a failing leaf, an IndexedData over a failing parent view) are
     reported under the signature of their cause plus a 'via' key."""
 
-    def __init__(self, ctx, W):
+    def __init__(self, ctx, W, target=None):
         self.ctx, self.W = ctx, W
+        self.T = W.d if target is None else target        # the dataset selections are evaluated on
+        self.on = "d" if self.T is W.d else ("aligned_dataset" if self.T is W.p else "other")
+        self.shape = tuple(self.T.shape)
         self.full_values = {}
         self.full_masks = {}
         self.values_cache = {}
@@ -199,8 +214,11 @@ class DataBlock(object):
         return L.describe_world(self.W)
 
     def common_keys(self, view, info):
-        return {"view_kind": classify_view(view, self.W.shape), "empty_result": info["empty"],
-                "data_ndim": ndim_class(self.W.nd), "result_ndim": info["result_ndim"]}
+        out = {"view_kind": classify_view(view, self.shape), "empty_result": info["empty"],
+               "data_ndim": ndim_class(self.W.nd), "result_ndim": info["result_ndim"]}
+        if self.on != "d":
+            out["evaluated_on"] = self.on
+        return out
 
     # ---- attribute values
     def values_outcome(self, name, view, vkey):
@@ -237,6 +255,11 @@ class DataBlock(object):
         sig, res, info = self.values_root(name, view, vkey)
         ctx.count("comparisons")
         ctx.count("values:%s x %s" % (akind, vclass))
+        ctx.count("values_view:" + vclass)
+        var = W.variants.get(name)
+        if var:
+            ctx.count("values_on_column:dtype:" + var["dtype"])
+            ctx.count("values_on_column:layout:" + var["layout"])
         if info["empty"]:
             ctx.count("values_with_empty_result:%s" % akind)
         ctx.evaluation(["values", akind, vclass, list(W.shape), W.coords, common.describe_view(view)],
@@ -248,27 +271,42 @@ class DataBlock(object):
     # ---- elementary selections
     def full_mask(self, key, make_state):
         if key not in self.full_masks:
+            limit = L._CHUNK_LIMIT[0]
+            L._CHUNK_LIMIT[0] = None          # the full-size reference always sees glue's real chunk constant
             try:
-                full = np.array(self.W.d.get_mask(make_state()), dtype=bool)
-                if full.shape != tuple(self.W.shape):
+                full = np.array(np.asarray(self.T.get_mask(make_state())), dtype=bool)
+                if full.shape != self.shape:
                     raise ValueError("full mask has shape %r" % (full.shape,))
                 self.full_masks[key] = full
             except Exception as e:
                 self.full_masks[key] = e
+            finally:
+                L._CHUNK_LIMIT[0] = limit
         return self.full_masks[key]
 
-    def mask_outcome(self, make_state, full, view):
-        W = self.W
+    def mask_outcome(self, make_state, full, view, joined=False):
+        T, rng = self.T, self.ctx.rng
         st = make_state()
-        via = self.ctx.rng.choice(["get_mask", "get_mask", "subset", "to_mask"])
+        via = rng.choice(["get_mask", "get_mask", "subset", "to_mask"])
+        if joined and via == "to_mask":
+            via = "get_mask"          # the key-join fallback lives in Data.get_mask
         if via == "get_mask":
-            getter = lambda: W.d.get_mask(st, view=view)
+            getter = lambda v=view: T.get_mask(st, view=v)
         elif via == "to_mask":
-            getter = lambda: st.to_mask(W.d, view=view)
+            getter = lambda v=view: st.to_mask(T, view=v)
         else:
-            sub = Subset(W.d)
+            sub = Subset(T)
             sub.subset_state = st
-            getter = lambda: sub.to_mask(view=view)
+            getter = lambda v=view: sub.to_mask(view=v)
+        if rng.random() < 0.08:
+            # fault sequence: the same object is first asked for a view numpy rejects, then for the valid one
+            kind, bad = L.invalid_view(rng, self.shape)
+            try:
+                getter(bad)
+                self.ctx.count("fault:%s:no_exception" % kind)
+            except Exception as e:
+                self.ctx.count("fault:%s:%s" % (kind, type(e).__name__))
+            self.ctx.count("fault_then_valid_reads")
         res, info = outcome(getter, full, view)
         if res is not None:
             res["via"] = via
@@ -286,11 +324,11 @@ class DataBlock(object):
         if isinstance(full, Exception):
             out = (None, None, None, False)
         else:
-            res, info = self.mask_outcome(mk, full, view)
+            res, info = self.mask_outcome(mk, full, view, joined=desc["k"].startswith("join_"))
             sig = None
             if res is not None:
                 # does the failure come from reading an attribute's values under this view?
-                for n in L.leaf_attr_names(W, desc):
+                for n in (L.leaf_attr_names(W, desc) if self.on == "d" else []):
                     vsig, vres, _ = self.values_root(n, view, vkey)
                     if vsig is not None:
                         sig = dict(vsig)
@@ -309,23 +347,34 @@ class DataBlock(object):
     def check_leaf(self, desc, view, vkey):
         ctx, W = self.ctx, self.W
         k = desc["k"]
-        vclass = classify_view(view, W.shape)
+        vclass = classify_view(view, self.shape)
         sig, res, info, ok = self.leaf_root(desc, view, vkey)
         if not ok:
             ctx.count("excluded:full_mask_failed:%s" % k)
             return
         ctx.count("comparisons")
-        ctx.count("masks:%s x %s" % (k, vclass))
+        if self.on == "d":
+            ctx.count("masks:%s x %s" % (k, vclass))
+            ctx.count("masks_view:" + vclass)
+        else:
+            ctx.count("masks_on_%s:%s" % (self.on, k))
+            ctx.count("masks_on_%s:view:%s" % (self.on, vclass))
+        if desc.get("variant"):
+            ctx.count("masks_of_edge_variants")
+            ctx.count("masks_of_edge_variant:%s:%s" % (k, desc["variant"]))
+        if L._CHUNK_LIMIT[0] is not None and k in ("roind", "roi3d"):
+            ctx.count("masks_of_chunked_selection_kinds_with_small_chunk_limit")
         if info["empty"]:
             ctx.count("masks_with_empty_result")
-        ctx.evaluation(["mask", k, vclass, list(W.shape), W.coords, common.describe_view(view)],
+        ctx.evaluation(["mask", k, self.on, vclass, list(W.shape), W.coords, common.describe_view(view)],
                        nontrivial(view, info["exp"]))
         if sig is not None:
-            ctx.violation(sig, {"world": self.wdesc(), "leaf": desc, "view": common.describe_view(view), "failure": res})
+            ctx.violation(sig, {"world": self.wdesc(), "leaf": desc, "view": common.describe_view(view), "failure": res,
+                                "evaluated_on": self.on, "chunk_limit": L._CHUNK_LIMIT[0]})
 
     def check_composite(self, ck, make_state, used, view, vkey):
         ctx, W = self.ctx, self.W
-        vclass = classify_view(view, W.shape)
+        vclass = classify_view(view, self.shape)
         ckey = ("composite", ck, repr(used))
         full = self.full_mask(ckey, make_state)
         if isinstance(full, Exception):
@@ -354,18 +403,49 @@ class DataBlock(object):
                             "view": common.describe_view(view), "failure": res})
 
 
-def run_data_block(ctx, rng, tier):
+DATA_FLAVOURS = [None, None, None, None, "large", None, None, "zero_size", None, None, None, None]
+ALIGNED_KINDS = ["slice", "pixslice", "mask", "roi2d_pix", "empty"]
+
+
+def make_views(rng, shape):
+    views = []
+    if 0 in shape:
+        for kind in ("none", "ellipsis", "slice_tuple_full", "slice_tuple_short", "empty_slice"):
+            views.append(common.make_view(rng, shape, kind))
+        views.append(np.zeros(shape, dtype=bool))
+        return views
+    for kind in VIEW_KINDS:
+        views.append(common.make_view(rng, shape, kind))
+        if kind in ("slice_tuple_full", "int_slice_mix", "index_arrays", "bool_mask") and rng.random() < 0.3:
+            views.append(common.make_view(rng, shape, kind))
+    for kind in rng.sample(L.EXT_VIEW_KINDS, 4):
+        views.append(L.make_view_ext(rng, shape, kind))
+    return views
+
+
+def run_data_block(ctx, rng, tier, index=0):
+    flavour = DATA_FLAVOURS[index % len(DATA_FLAVOURS)]
     max_len = 5 if tier == "quick" else rng.choice([5, 5, 8])
-    W = L.make_world(rng, max_len=max_len)
+    shape = None
+    if flavour == "large":
+        shape = (rng.randint(100, 220),)          # enough rows (with duplicates) to leave numpy's small-array paths
+    elif flavour == "zero_size":
+        shape = rng.choice([(0,), (0, 3), (2, 0), (2, 0, 3)])
+    W = L.make_world(rng, shape=shape, max_len=max_len)
+    # the chunk constant of the chunked selection code paths is internal: a quarter of the blocks read views with tiny
+    # chunks while the full-size reference is always computed with the real constant
+    L.set_chunk_limit(rng.choice([1, 2, 5]) if rng.random() < 0.25 else None)
     B = DataBlock(ctx, W)
     ctx.count("data_blocks")
     ctx.count("data_blocks:ndim:%d" % W.nd)
     ctx.count("data_blocks:coords:%s" % W.coords)
-    views = []
-    for kind in VIEW_KINDS:
-        views.append(common.make_view(rng, W.shape, kind))
-        if kind in ("slice_tuple_full", "int_slice_mix", "index_arrays", "bool_mask") and rng.random() < 0.5:
-            views.append(common.make_view(rng, W.shape, kind))
+    if flavour:
+        ctx.count("data_blocks:" + flavour)
+    if L._CHUNK_LIMIT[0] is not None:
+        ctx.count("data_blocks:with_small_chunk_limit")
+    views = make_views(rng, W.shape)
+    if flavour == "large":
+        views = views[:1] + rng.sample(views[1:], 8)
     # ---- attribute values
     for name in W.atts:
         for vi, view in enumerate(views):
@@ -378,13 +458,19 @@ def run_data_block(ctx, rng, tier):
         descs[k] = desc
         for vi, view in enumerate(views):
             B.check_leaf(desc, view, vi)
-        if k in ("slice", "pixslice"):
+        if k in ("slice", "pixslice") and 0 not in W.shape:
             if desc.get("ref") == "g":
                 continue
             sl = [slice(*s) for s in desc["slices"]] + [slice(None)] * (W.nd - len(desc["slices"]))
             for j in range(3):
                 views.append(edge_view(rng, W.shape, sl))
                 B.check_leaf(desc, views[-1], len(views) - 1)
+    # ---- selections defined on the table joined by key (1-d datasets)
+    if W.t is not None:
+        for _ in range(2):
+            desc = L.join_leaf(rng, W)
+            for vi, view in enumerate(views):
+                B.check_leaf(desc, view, vi)
     # ---- composites over two/three random leaves
     for ck in COMPOSITE_KINDS:
         used = [descs[rng.choice(kinds)] for _ in range({"not": 1, "multior": 3}.get(ck, 2))]
@@ -405,6 +491,17 @@ def run_data_block(ctx, rng, tier):
             return MultiOrState(parts)
         for vi, view in enumerate(views):
             B.check_composite(ck, mk, used, view, vi)
+    # ---- the same pixel-based selections evaluated on the pixel-aligned dataset with permuted axes
+    if 0 not in W.shape:
+        Bp = DataBlock(ctx, W, W.p)
+        pviews = make_views(rng, Bp.shape)
+        for k in ALIGNED_KINDS:
+            desc = L.rand_leaf(rng, W, k)
+            if k == "roi2d_pix" and not all(W.kinds[n] == "pixel" for n in desc["atts"]):
+                continue
+            for vi, view in enumerate(pviews):
+                Bp.check_leaf(desc, view, ("p", vi))
+    L.set_chunk_limit(None)
     if ctx.rng.random() < 0.01:
         ctx.sample({"world": B.wdesc(), "views": [common.describe_view(v) for v in views[:12]]})
 
@@ -460,12 +557,53 @@ def rand_indices(rng, shape):
     return tuple(None if k else rng.randrange(s) for k, s in zip(keep, shape))
 
 
+def style_indices(rng, idx, shape, style):
+    """The same index tuple written with negative integers (counted from the end) or numpy integers."""
+    out = []
+    for i, n in zip(idx, shape):
+        if i is None:
+            out.append(None)
+        elif style == "negative":
+            out.append(i - n if rng.random() < 0.7 else i)
+        elif style == "numpy_int":
+            out.append(np.int64(i))
+        else:
+            out.append(i)
+    return tuple(out)
+
+
 def indexed_view(rng, shape):
     """None or a full-length tuple (the documented form of IndexedData views)."""
-    kind = rng.choice(["none", "slice_tuple_full", "slice_tuple_full", "int_slice_mix", "all_int", "index_arrays"])
+    kind = rng.choice(["none", "slice_tuple_full", "slice_tuple_full", "int_slice_mix", "all_int", "index_arrays",
+                       "ext"])
+    if kind == "ext":
+        return L.make_view_ext(rng, shape, rng.choice(["np_int_mix", "neg_int_mix", "backward_slices", "neg_index_arrays",
+                                                       "np_all_int"]))
     if kind == "int_slice_mix" and len(shape) == 1:
         kind = "all_int"
     return common.make_view(rng, shape, kind)
+
+
+class IndexedReader(object):
+    """Reads the indexed dataset's values from inside the message announcing that its indices changed."""
+
+    def __init__(self, hub, ix):
+        from glue.core.hub import HubListener
+        from glue.core.message import NumericalDataChangedMessage
+
+        class _Listener(HubListener):
+            pass
+        self.ix, self.seen = ix, []
+        self.listener = _Listener()
+        hub.subscribe(self.listener, NumericalDataChangedMessage, handler=self.on_change)
+
+    def on_change(self, msg):
+        if msg.data is self.ix:
+            try:
+                cid = self.ix.main_components[0]
+                self.seen.append((tuple(self.ix.indices), np.array(self.ix.get_data(cid))))
+            except Exception as e:
+                self.seen.append((None, e))
 
 
 def to_parent_view(idx, view):
@@ -542,6 +680,9 @@ class IndexedBlock(object):
         ctx, rng, W = self.ctx, self.rng, self.W
         d = W.d
         idx = rand_indices(rng, W.shape)
+        style = rng.choice(["plain", "plain", "negative", "numpy_int"])
+        idx = style_indices(rng, idx, W.shape, style)
+        ctx.count("indexed_blocks:index_style:" + style)
         try:
             ix = IndexedData(d, idx)
         except Exception as e:
@@ -552,13 +693,93 @@ class IndexedBlock(object):
         ctx.count("indexed_blocks")
         ctx.count("indexed_blocks:parent_ndim:%d" % W.nd)
         ctx.count("indexed_blocks:kept_dims:%d" % sum(1 for i in idx if i is None))
-        fp = [list(W.shape), W.coords, [i is None for i in idx]]
-        for rep in range(3):
+        fp = [list(W.shape), W.coords, [i is None for i in idx], style]
+        reader = None
+        if rng.random() < 0.5:
+            try:
+                W.dc.append(ix)
+                reader = IndexedReader(W.dc.hub, ix)
+            except Exception as e:
+                ctx.violation({"target": "indexed:append_to_collection", "kind": "exception", "exc": type(e).__name__,
+                               "where": glue_frame(e)}, {"world": L.describe_world(W), "error": repr(e)[:300]})
+        first = idx
+        for rep in range(4):
             if rep > 0:
-                idx = tuple(None if i is None else rng.randrange(s) for i, s in zip(idx, W.shape))
-                ix.indices = idx
+                # rounds 1, 2: new random indices; round 3: back to the first ones (down and up again)
+                new = first if rep == 3 else style_indices(rng, tuple(None if i is None else rng.randrange(s) for i, s in
+                                                                      zip(idx, W.shape)),
+                                                           W.shape, rng.choice([style, style, "plain"]))
+                types = sorted(set(type(i).__name__ for i in idx if i is not None) |
+                               set(type(i).__name__ for i in new if i is not None))
+                try:
+                    ix.indices = new
+                except Exception as e:
+                    ctx.violation({"target": "indexed:reassign", "kind": "exception", "exc": type(e).__name__,
+                                   "where": glue_frame(e), "index_types": types},
+                                  {"world": L.describe_world(W), "before": repr(idx), "after": repr(new),
+                                   "error": repr(e)[:300]})
+                    return
+                idx = new
                 ctx.count("indexed_indices_reassigned")
+                if rep == 3:
+                    ctx.count("indexed_indices_reassigned_back_to_the_first")
+                if reader is not None:
+                    sl = tuple(slice(None) if i is None else i for i in idx)
+                    seen, reader.seen = reader.seen, []
+                    for at, val in seen:
+                        ctx.count("comparisons")
+                        ctx.count("indexed:read_inside_change_message")
+                        exp = np.asarray(d[d.main_components[0]])[sl]
+                        if isinstance(val, Exception) or val.shape != exp.shape or not common.same_array(val, exp):
+                            ctx.violation({"target": "indexed:read_inside_change_message",
+                                           "kind": "exception" if isinstance(val, Exception) else "value_mismatch"},
+                                          {"world": L.describe_world(W), "indices": repr(idx), "got": repr(val)[:300],
+                                           "expected": exp})
             self.read_all(ix, idx, fp, rep)
+            if rep == 1 and len(ix.shape) == 2 and rng.random() < 0.5:
+                self.nested(ix, idx, fp)
+
+    def nested(self, ix, idx, fp):
+        """An IndexedData of an IndexedData (a non-Data parent): values and masks against the grand-parent's slice."""
+        ctx, rng, W = self.ctx, self.rng, self.W
+        d = W.d
+        sl = tuple(slice(None) if i is None else i for i in idx)
+        idx2 = rand_indices(rng, ix.shape)
+        try:
+            ix2 = IndexedData(ix, idx2)
+        except Exception as e:
+            ctx.violation({"target": "indexed:nested_constructor", "kind": "exception", "exc": type(e).__name__,
+                           "where": glue_frame(e), "coords": "present" if d.coords is not None else "none"},
+                          {"world": L.describe_world(W), "indices": repr(idx), "indices2": repr(idx2), "error": repr(e)[:300]})
+            return
+        ctx.count("indexed_blocks:nested")
+        sl2 = tuple(slice(None) if i is None else i for i in idx2)
+        shape2 = tuple(n for n, i in zip(ix.shape, idx2) if i is None)
+        views = [None, common.make_view(rng, shape2, rng.choice(["slice_tuple_full", "all_int"]))]
+        base = {"nested": True}
+        for ci, cp in list(zip(list(ix2.main_components), list(d.main_components)))[:6]:
+            full = np.asarray(d[cp])[sl][sl2]
+            akind = W.kinds.get(cp.label, "stored")
+            for view in views:
+                pv = to_parent_view(idx, to_parent_view(idx2, view))
+                self.compare("nested_values", lambda ci=ci, view=view: ix2.get_data(ci, view=view), full, view,
+                             dict(base, attr_kind=akind), {"indices": repr(idx), "indices2": repr(idx2),
+                                                           "attribute": cp.label}, fp, tol=akind in COMPUTED_KINDS,
+                             root_fn=lambda name=cp.label, pv=pv: self.B.values_root(name, pv, self.vkey())[0]
+                             if name in W.atts else None)
+        for k in ("range", "slice", "mask"):
+            desc = L.rand_leaf(rng, W, k)
+            try:
+                fullmask = np.array(d.get_mask(L.build_leaf(W, desc)), dtype=bool)[sl][sl2]
+            except Exception:
+                continue
+            for view in views:
+                st = L.build_leaf(W, desc)
+                pv = to_parent_view(idx, to_parent_view(idx2, view))
+                self.compare("nested_mask", lambda st=st, view=view: ix2.get_mask(st, view=view), fullmask, view,
+                             dict(base, state_kind=k, state_variant=leaf_variant(desc)),
+                             {"indices": repr(idx), "indices2": repr(idx2), "leaf": desc}, fp,
+                             root_fn=lambda desc=desc, pv=pv: self.B.leaf_root(desc, pv, self.vkey())[0])
 
     def vkey(self):
         self.nview += 1
@@ -681,6 +902,16 @@ class IndexedBlock(object):
                 rngs.append((lo - rng.choice([0.0, 0.5]), hi + rng.choice([0.0, 0.5])))
                 bins.append(rng.randint(1, 5))
             choice = rng.choice([None] + states) if states else None
+            if choice is not None and "dk" in L.leaf_attr_names(W, choice[1]):
+                # Data.compute_histogram indexes a numpy column with the lazy (dask) mask of such a selection and gets
+                # a wrong histogram or IndexError on any dataset, indexed or not: C10's matter (see notes), not a view's
+                ctx.count("excluded:histogram_selection_with_lazy_mask")
+                choice = None
+            if choice is not None and choice[1].get("variant") == "scalar_result":
+                # a parsed expression with a scalar result answers with a float mask, which IndexedData and-combines:
+                # C01's finding (C01-parsed-scalar-expression-float-mask), not a view matter
+                ctx.count("excluded:histogram_selection_with_non_boolean_mask")
+                choice = None
             if choice is not None and has_lossy_copy(W, choice[1]):
                 # IndexedData and-combines the selection with its own slice selection: C01's copy() finding
                 ctx.count("excluded:histogram_selection_of_leaf_class_without_copy")
@@ -724,7 +955,7 @@ def cases(tier, seed):
 def run_case(ctx, case):
     L.clear_memo_caches()
     if case[0] == "data":
-        run_data_block(ctx, ctx.rng, ctx.tier)
+        run_data_block(ctx, ctx.rng, ctx.tier, case[1])
     elif case[0] == "indexed":
         run_indexed_block(ctx, ctx.rng, ctx.tier)
     else:
@@ -744,6 +975,22 @@ def floors(counters, tier):
         for v in VIEW_CLASSES:
             if c("values:%s x %s" % (a, v), 0) < 5:
                 out.append("attribute kind %s x view kind %s compared fewer than 5 times" % (a, v))
+    for v in EXT_VIEW_CLASSES:
+        for what in ("values_view:", "masks_view:", "masks_on_aligned_dataset:view:"):
+            if c(what + v, 0) < 40:
+                out.append("fewer than 40 comparisons %s%s" % (what, v))
+    for k, need in (("values_on_column:layout:F", 50), ("values_on_column:layout:transposed", 50),
+                    ("values_on_column:layout:reversed", 50), ("values_on_column:layout:strided", 50),
+                    ("values_on_column:layout:broadcast", 50), ("values_on_column:layout:dask", 50),
+                    ("values_on_column:dtype:>f8", 50), ("values_on_column:dtype:float32", 50),
+                    ("values_on_column:dtype:uint8", 50), ("masks_of_edge_variants", 200), ("fault_then_valid_reads", 200),
+                    ("masks_of_chunked_selection_kinds_with_small_chunk_limit", 30), ("data_blocks:large", 2),
+                    ("data_blocks:zero_size", 2), ("masks_on_aligned_dataset:slice", 50),
+                    ("masks_on_aligned_dataset:mask", 50), ("masks:join_ineq x none", 2), ("indexed_blocks:nested", 5),
+                    ("indexed_blocks:index_style:negative", 5), ("indexed_blocks:index_style:numpy_int", 5),
+                    ("indexed_indices_reassigned_back_to_the_first", 10), ("indexed:read_inside_change_message", 10)):
+        if c(k, 0) < need:
+            out.append("fewer than %d %s" % (need, k))
     for s in SELECTION_KINDS_ALWAYS + SELECTION_KINDS_SOMETIMES:
         for v in VIEW_CLASSES:
             if s in L.LEAF_KINDS_1D and v in ("slices_short", "int_slice_mix"):
